@@ -49,7 +49,8 @@ theorem nothing_below {ed : Ed} (hinv : Inv ed) {P : Path} {t : List Entry}
 every cached tree at or below `P ++ [n]`: the invariant survives. -/
 theorem inv_leaf_update {ed : Ed} (hinv : Inv ed) {P : Path} {t : List Entry}
     (hP : aget P ed.trees = some t) {n : Bytes} {t' : List Entry} (ht' : TreeOk t')
-    (hn_ok : ∀ e, findName t' n = some e → e.isTree = true → (aget e.oid ed.store).isSome = true)
+    (hn_ok : ∀ e, findName t' n = some e → e.isTree = true →
+      noFind e.oid = true ∨ (aget e.oid ed.store).isSome = true)
     (hother : ∀ m, m ≠ n → findName t' m = findName t m) (trees' : Assoc Path (List Entry))
     (hget : ∀ K, aget K trees' =
       if (P ++ [n]) <+: K then none else if K = P then some t' else aget K ed.trees) (pb : Path) :
@@ -158,13 +159,13 @@ theorem inv_leaf_update {ed : Ed} (hinv : Inv ed) {P : Path} {t : List Entry}
           have hst := hn_ok e (hen ▸ hfe0) hd
           have hnone : aget (K ++ [e.name]) trees' = none := by
             rw [hget, hen]; simp
-          have hne : (e.oid == emptyTreeId) = false := by
-            cases h : e.oid == emptyTreeId with
-            | false => rfl
-            | true => exact absurd (by simpa using h) (ht'.good e he hd).1
           show (resolve ⟨trees', ed.store, pb⟩ (K ++ [e.name]) e.oid).isSome = true
-          simp only [resolve, hnone, hne, Bool.false_eq_true, if_false]
-          exact hst
+          simp only [resolve, hnone]
+          by_cases hnf : noFind e.oid = true
+          · simp [hnf]
+          · rcases hst with h | h
+            · exact absurd h hnf
+            · simpa [hnf] using h
         have hfe : findName t' e.name = some e := hfe0
         rw [hother _ hen] at hfe
         have hmem := ((findName_eq_some_iff (hinv.trees _ _ hP).uniq).1 hfe).1
